@@ -101,3 +101,15 @@ Theorem C04_kernels_generated : forall p creator dep mkt idx amount wc wt fee,
        G_Deposit_Amount := amount; G_Deposit_WithdrawalCount := wc; G_Deposit_TotalWithdrawalAmount := wt |} fee = dec_round_int (dec_mulint fee amount).
 Proof. intros. split; reflexivity. Qed.
 Print Assumptions C04_kernels_generated.
+
+(* the settlement of one participation in the model IS x/orderbook/keeper settleParticipation, generated from the source with its payments and
+   hook calls emitted as effects in order (payment out of the liquidity pool / the house-fee collector, win / loss / refund / fee-refund hook)
+   and the participation record it stores: same refusals (already settled, market not resolved), same amounts, same receivers, same order *)
+Theorem C04_settle_participation_generated : forall effs0 stored0 p mstatus creator, p_reimb p = 0 ->
+  K_settle_settleParticipation (settle_state effs0 stored0) (gp_of p) (gmk mstatus creator) =
+  match settle_participation p mstatus creator with
+  | None => None
+  | Some (p', effs) => Some (settle_state (effs0 ++ effs) p')
+  end.
+Proof. exact gen_settleParticipation. Qed.
+Print Assumptions C04_settle_participation_generated.
